@@ -323,6 +323,12 @@ fn main() {
                     "tree",
                 ),
                 (
+                    "aggregator-big-batch".into(),
+                    Box::new(c16::big_batch_scenario()),
+                    Tiered { quick: lim(4, 3, false, 30), thorough: lim(6, 4, false, 300) },
+                    "tree",
+                ),
+                (
                     "aggregator-slow-client".into(),
                     Box::new(c16::slow_client_scenario()),
                     Tiered { quick: lim(5, 4, false, 30), thorough: lim(7, 5, false, 400) },
@@ -370,7 +376,7 @@ fn main() {
                 (
                     "lock-queue".into(),
                     Box::new(props_session::c13_locks(&known)),
-                    Tiered { quick: lim(7, 3, true, 30), thorough: lim(10, 5, true, 400) },
+                    Tiered { quick: lim(6, 3, true, 30), thorough: lim(10, 5, true, 400) },
                     "graph",
                 ),
                 (
